@@ -33,6 +33,8 @@ pub struct Policy {
     pub offset: usize,
     /// insert whitespace between tokens
     pub spaces: bool,
+    /// explicit pool index for the k-th literal of the sequence (exhaustive assignment); falls back to rotation
+    pub fixed: Vec<usize>,
 }
 
 pub fn reveal_lits(e: &str) -> Vec<String> {
@@ -60,10 +62,10 @@ pub fn exact_fns(e: &str) -> Vec<String> {
 
 impl Policy {
     pub fn reveal(e: &str, offset: usize) -> Policy {
-        Policy { lits: reveal_lits(e), sups: reveal_sups(), fns_allowed: exact_fns(e), offset, spaces: false }
+        Policy { lits: reveal_lits(e), sups: reveal_sups(), fns_allowed: exact_fns(e), offset, spaces: false, fixed: vec![] }
     }
     pub fn all_fns(e: &str, offset: usize) -> Policy {
-        Policy { lits: reveal_lits(e), sups: reveal_sups(), fns_allowed: vec![], offset, spaces: false }
+        Policy { lits: reveal_lits(e), sups: reveal_sups(), fns_allowed: vec![], offset, spaces: false, fixed: vec![] }
     }
 }
 
@@ -87,7 +89,8 @@ pub fn render(v: &Vocab, e: &str, kinds: &[String], pol: &Policy) -> Option<Rend
         let p = i0 + 1;
         let piece: String = match k.as_str() {
             "num" => {
-                let l = &pol.lits[nlit % pol.lits.len()];
+                let k = nlit - pol.offset;
+                let l = if k < pol.fixed.len() { &pol.lits[pol.fixed[k] % pol.lits.len()] } else { &pol.lits[nlit % pol.lits.len()] };
                 nlit += 1;
                 let (t, im) = split_lit(l);
                 asg.lits.insert(p, (t, im));
